@@ -98,19 +98,26 @@ let rel_lossy_text g (fs : string list) : string =
   hang [rel; rels; rel2; rels2]
     (Printf.sprintf "rel=%s|rels=%s|relp=%s|rel2=%s|relsp=%s|rels2=%s" rel rels relp rel2 relsp rels2)
 
-(* stream rel-lossy-conv: fields = [relations value].  There is no model of the lossless builder
-   in this cone: this side prints what the conversion clauses of C14 (props/C14.v, C14_conv_full)
-   DEMAND — the lossless form prints the lossy text, converting back returns the value, the
-   lossless reader reads the printed text as the same structure — so a difference in this stream is
-   a violation of a conversion clause, not of a transcription. *)
+(* stream rel-lossy-conv: fields = [relations value].  Model: coq/model/RelConv.v (the conversions
+   through cone C11's model of RelationBuilder::build and cone C10's accessor model). *)
 let rel_lossy_conv (fs : string list) : string =
   let v = rels_of (L.nth fs 0) in
   let flat = L.concat v in
-  let lt = L.map (fun r -> hx (print_relation dv_print r)) flat in
-  let back = L.map rel_s flat in
-  let et = L.map (fun e -> hx (print_entry dv_print e)) v in
-  let eb = L.map entry_s v in
-  Printf.sprintf "lossy=%s|lt=%s|back=%s|ll=%s|et=%s|eb=%s" (cat "," lt) (cat "," lt) (cat "&" back) (cat "&" back) (cat "," et) (cat "&" eb)
+  let txt r = print_relation dv_print r in
+  let tx f = res_str (fun t -> hx (text t)) f in
+  let lossy = L.map (fun r -> hx (txt r)) flat in
+  let lt = L.map (fun r -> tx (RelConv.to_lossless r)) flat in
+  let back = L.map (fun r -> res_str rel_s (bind (RelConv.to_lossless r) RelConv.to_lossy)) flat in
+  let ll = L.map (fun r -> res_str rel_s (RelConv.read_as_lossy (txt r))) flat in
+  let et = L.map (fun e -> tx (RelConv.entry_to_lossless e)) v in
+  let eb = L.map (fun e -> res_str entry_s (bind (RelConv.entry_to_lossless e) RelConv.entry_to_lossy)) v in
+  let el = L.map (fun e -> res_str entry_s (RelConv.read_entry_as_lossy (print_entry dv_print e))) v in
+  let ft = tx (RelConv.field_to_lossless v) in
+  let fb = res_str rels_s (bind (RelConv.field_to_lossless v) RelConv.field_to_lossy) in
+  let fl = res_str rels_s (RelConv.read_field_as_lossy (print_relations dv_print v)) in
+  hang (lt @ back @ ll @ et @ eb @ el @ [ft; fb; fl])
+    (Printf.sprintf "lossy=%s|lt=%s|back=%s|ll=%s|et=%s|eb=%s|el=%s|ft=%s|fb=%s|fl=%s"
+       (cat "," lossy) (cat "," lt) (cat "&" back) (cat "&" ll) (cat "," et) (cat "&" eb) (cat "&" el) ft fb fl)
 
 (* stream debversion: fields = [hex input] *)
 let debversion (fs : string list) : string =
